@@ -469,6 +469,7 @@ theorem xf_eval (hL : Linked σ w g) : ∀ (e : PyExpr) (L : List (List Str)) (e
           simp [compNames, xfTarget_simple _ t hst, compNames_xfGens _ _ rest okrest]
         rw [hnames, xfTarget_simple _ t hst]
         congr 1; funext itV
+        congr 1; funext itr
         congr 2
         congr 1; funext items
         exact xf_runFrom hL t ifs rest items _ elt _ (inv_scope hI _ _) (res_scope hR _ _ hfree) hst okifs okrest
